@@ -328,11 +328,11 @@ def check_case(case, ctx):
     if forced:
         classes.append("forced-internal-bound")
     if case["mode"] == "solution":
-        return _check_solution(case, ctx, spec, res, classes, forced, members)
+        return _check_solution(case, ctx, spec, res, classes, forced)
     return _check_add(case, ctx, spec, classes, members)
 
 
-def _check_solution(case, ctx, spec, res, classes, forced, members):
+def _check_solution(case, ctx, spec, res, classes, forced):
     import pandas as pd
     from cobra.flux_analysis import pfba
     from cobra.flux_analysis.loopless import loopless_solution
